@@ -586,9 +586,33 @@ func c13Cache(c *eng.Ctx) {
 	}
 	if f := c.Fn("physical.(*cacheTransaction).Commit"); f != nil {
 		c.Clause("R2", "C13.5")
-		inval := instrsOf(eng.Calls(f, `physical\.\(\*cacheTransaction\)\.Commit\$1$`))
+		// the invalidation literal: whichever function literal of Commit removes from an LRU (selected by
+		// what it does, not by its ordinal name), and the calls that enter it
+		var invalFns []*ssa.Function
+		for _, clo := range eng.Closures(f) {
+			if len(eng.Calls(clo, `TwoQueueCache\[.*\]\)\.Remove$`)) > 0 {
+				invalFns = append(invalFns, clo)
+			}
+		}
+		var inval []ssa.Instruction
+		for _, ci := range nfAllCalls(f) {
+			if g, _ := nfFuncValue(ci.Common().Value); g != nil {
+				for _, h := range invalFns {
+					if g == h {
+						inval = append(inval, ci)
+					}
+				}
+			}
+		}
 		if c.Floor(f, "parent invalidation", len(inval), 1) {
-			c.Cut(f, "parent cache invalidation", inval, eng.GCallOK(f, `^<physical\.Transaction>\.Commit$`), nil)
+			// after the wrapped commit succeeded: the call itself, or a literal / helper that forwards its verdict
+			okCommit := eng.Guard{Desc: "success edge of ^<physical\\.Transaction>\\.Commit$"}
+			for _, st := range nfMust(f, nil, func(nc nfCall, _ *nfFrame) bool { return nc.Name == "<physical.Transaction>.Commit" }, 1) {
+				if cl, isCall := st.At.(ssa.CallInstruction); isCall && st.Fwd {
+					okCommit.Edges = append(okCommit.Edges, eng.CallOKEdges(cl)...)
+				}
+			}
+			c.Cut(f, "parent cache invalidation", inval, okCommit, nil)
 			c.Clause("R5", "C13.5")
 			for _, iv := range inval {
 				// one invalidation per key remembered by Put/Delete
@@ -610,7 +634,7 @@ func c13Cache(c *eng.Ctx) {
 				}
 			}
 		}
-		if g := c.Fn("physical.(*cacheTransaction).Commit$1"); g != nil {
+		for _, g := range invalFns {
 			c.Clause("R5", "C13.5")
 			rm := eng.Calls(g, `TwoQueueCache\[.*\]\)\.Remove$`)
 			if c.Floor(g, "parent lru Remove", len(rm), 1) {
